@@ -96,7 +96,8 @@ def step_loop_contract(nb, tb, prefix):
         inv.append('target_set[%d] == 0' % k)
     for k in range(tb):
         inv.append('trans_set[%d] == 0' % k)
-    assigns = ['ctx->flags', 'ctx->event', 'i', 'g_calls', 'g_int_last_null', 'g_ext_calls', 'g_last_ext_null', 'g_foreach_budget',
+    inv.append('G.phase == 0')   # no executable content runs inside the DEQUEUE_EVENT loop
+    assigns = ['ctx->flags', 'ctx->event', 'i', 'G',
                '__CPROVER_object_whole(conflicts)', '__CPROVER_object_whole(exit_set)', '__CPROVER_object_whole(target_set)', '__CPROVER_object_whole(trans_set)',
                '__CPROVER_object_upto(ctx->invocations, %d)' % nb]
     return inv, assigns
@@ -191,6 +192,8 @@ def verify_machine(res, name, path, wd, base, cfile, ctext, index, root):
         return res
     nested = nested_history(info, facts)
     d2 = dict(defines, STEP_CONTRACT=None)
+    if 'content_order' in name:
+        d2['ORDER_LOG'] = None
     if nested:
         d2['SKIP_HIST'] = None
     inv, assigns = step_loop_contract(nb, tb, info['prefix'])
